@@ -25,6 +25,10 @@ type seg struct {
 	origin *hexOrigin // deep evaluator: what a hex group prints
 	// plainBytes: a %x without flags or padding that alter the digits of a byte slice
 	plainBytes bool
+	// fmtWidth / fmtPlainFlags: the width of the verb and whether its flags leave the
+	// digits alone (for evaluators that learn the operand's length later)
+	fmtWidth      int
+	fmtPlainFlags bool
 }
 
 func (s seg) String() string {
@@ -225,7 +229,7 @@ func sprintfLang(format string, args []ssa.Value) []seg {
 		ai++
 		switch verb {
 		case 'x', 'X':
-			s := seg{kind: "hex", upper: verb == 'X', val: arg, digits: -1}
+			s := seg{kind: "hex", upper: verb == 'X', val: arg, digits: -1, fmtWidth: width, fmtPlainFlags: !strings.ContainsAny(flags, "#+- ")}
 			if arg != nil && !strings.ContainsAny(flags, "#+- ") {
 				// a byte slice printed without flags that change the digits (and without padding)
 				if n, ok := byteLen(arg); width < 0 || ok && width <= int(2*n) {
